@@ -226,10 +226,21 @@ void WaitCase(Ctx& ctx, int wk, int form, int shared_mode) {
     }
   }
   u32 dur_ns = ctx.rng.Below(4) == 0 ? 0 : ctx.rng.Below(horizon + 200);
+  // focus mode (timed waits): completions are concentrated around the deadline, one producer is surely late, so the
+  // timeout lands inside the window "producer already published the result but is still inside the completion call"
+  bool focus = wk != wWait && ctx.rng.Below(5) < 3;
+  if (focus) {
+    dur_ns = 300 + ctx.rng.Below(500);
+    int late = n > 1 ? static_cast<int>(ctx.rng.Below(static_cast<u32>(n))) : -1;
+    for (int i = 0; i < n; ++i) {
+      auto& s = in[static_cast<std::size_t>(i)];
+      s.sleep_ns = i == late ? dur_ns + 1500 + ctx.rng.Below(500) : dur_ns - 150 + ctx.rng.Below(420);
+    }
+  }
   bool use_end = ctx.rng.Coin();
   u32 wjit = ctx.rng.Below(4);
-  ctx.Note("%s %s n=%d shared_mode=%d deadline=%uns producers(sleep ns)=[", kWaitName[wk], kFormName[form], n,
-           shared_mode, dur_ns);
+  ctx.Note("%s %s n=%d shared_mode=%d%s deadline=%uns producers(sleep ns)=[", kWaitName[wk], kFormName[form], n,
+           shared_mode, focus ? " focus" : "", dur_ns);
   for (auto& s : in) {
     ctx.Note("%u%s ", s.sleep_ns, s.shared ? "S" : "U");
   }
